@@ -25,22 +25,37 @@ end
 def withOk (cfg : Cfg) (items : List WItem) : Bool :=
   cfg.withNested || (items.length == 1 && items.all (fun m => m.enterRaises.isNone))
 
+/-- a class that is not BaseException-only (or no class at all) -/
+def optQuiet : Option Nat → Bool
+  | none => true
+  | some c => !baseOnly c
+
+/-- none of the manager's methods raises a BaseException-only class -/
+def WItem.quiet (m : WItem) : Bool := optQuiet m.enterRaises && optQuiet m.bindRaises && optQuiet m.exitRaises
+
+def HPre.quiet : HPre → Bool
+  | .raises _ c => !baseOnly c
+  | _ => true
+
 mutual
 /-- the fragment on which the code, as configured by `cfg`, follows Python: a node shape is excluded only while its
-deviation flag is off -/
+deviation flag is off.  While `catchesBase` is off (today) the sources of BaseException-only exceptions are excluded:
+`raise` of such a class, a suspension point (the task may be cancelled there), managers / clause expressions raising one -/
 def confS (cfg : Cfg) : Stmt → Bool
+  | .raise c _ => cfg.catchesBase || !baseOnly c
+  | .suspend _ => cfg.catchesBase
   | .ite _ b o => confL cfg b && confL cfg o
   | .while_ _ b o => confL cfg b && confL cfg o && (cfg.loopElsePropagates || !freeJumpL o)
   | .for_ _ b o => confL cfg b && confL cfg o && (cfg.loopElsePropagates || !freeJumpL o)
   | .try_ b hs o f => confL cfg b && confH cfg hs && confL cfg o && confL cfg f
-  | .with_ items b => confL cfg b && withOk cfg items
+  | .with_ items b => confL cfg b && withOk cfg items && (cfg.catchesBase || items.all WItem.quiet)
   | _ => true
 def confL (cfg : Cfg) : List Stmt → Bool
   | [] => true
   | s :: ss => confS cfg s && confL cfg ss
 def confH (cfg : Cfg) : List Handler → Bool
   | [] => true
-  | .mk _ _ b :: hs => confL cfg b && confH cfg hs
+  | .mk _ pre b :: hs => confL cfg b && (cfg.catchesBase || pre.quiet) && confH cfg hs
 end
 
 /-! ### small agreement lemmas (one per combinator) -/
@@ -58,13 +73,17 @@ theorem handlingIn_agree (r : Res) (h : Option Exc) : PS.handlingIn r h = Py.han
   · cases m <;> rfl
   · rfl
 
-theorem withFinish_single (m : WItem) (r : Res × World) :
-    lift (PS.withFinish [m] r) = Py.exit1 m (lift r) := by
+/-- a result that `except Exception` handles like Python does: not a BaseException-only exception while `catchesBase` is off -/
+def Seen (cfg : Cfg) (r : Res) : Prop := ∀ e, r = .exc e → skipsHandlers cfg e = false
+
+theorem withFinish_single (cfg : Cfg) (m : WItem) (r : Res × World) (hr : Seen cfg r.1) :
+    lift (PS.withFinish cfg [m] r) = Py.exit1 m (lift r) := by
   rcases r with ⟨(_ | mk) | e, w⟩
   · cases hx : m.exitRaises <;> simp [PS.withFinish, PS.exitAll, Py.exit1, lift, Res.toOut, hx]
   · cases hx : m.exitRaises <;> cases mk <;> simp [PS.withFinish, PS.exitAll, Py.exit1, lift, Res.toOut, Marker.toOut, hx]
-  · cases hx : m.exitRaises <;> cases hs : m.suppress <;>
-      simp [PS.withFinish, PS.exitAll, Py.exit1, lift, Res.toOut, hx, hs]
+  · have hsk : skipsHandlers cfg e = false := hr e rfl
+    cases hx : m.exitRaises <;> cases hs : m.suppress <;>
+      simp [PS.withFinish, PS.exitAll, Py.exit1, lift, Res.toOut, hx, hs, hsk]
 
 theorem selectHandler_confL (cfg : Cfg) (sub : Nat → Nat → Bool) (e : Exc) :
     ∀ hs w hb w', confH cfg hs = true → selectHandler sub e hs w = (.found hb, w') → confL cfg hb = true := by
@@ -81,13 +100,40 @@ theorem selectHandler_confL (cfg : Cfg) (sub : Nat → Nat → Bool) (e : Exc) :
       | tick i =>
         simp only [selectHandler] at h
         split at h
-        · simp only [Prod.mk.injEq, HSel.found.injEq] at h; rw [← h.1]; exact hc.1
+        · simp only [Prod.mk.injEq, HSel.found.injEq] at h; rw [← h.1]; exact hc.1.1
         · exact ih _ hb w' hc.2 h
       | plain =>
         simp only [selectHandler] at h
         split at h
-        · simp only [Prod.mk.injEq, HSel.found.injEq] at h; rw [← h.1]; exact hc.1
+        · simp only [Prod.mk.injEq, HSel.found.injEq] at h; rw [← h.1]; exact hc.1.1
         · exact ih _ hb w' hc.2 h
+
+/-- an exception raised by a clause's type expression is not BaseException-only on the fragment -/
+theorem selectHandler_raised_nb (cfg : Cfg) (hcb : cfg.catchesBase = false) (sub : Nat → Nat → Bool) (e : Exc) :
+    ∀ hs w e2 w', confH cfg hs = true → selectHandler sub e hs w = (.raised e2, w') → baseOnly e2.cls = false := by
+  intro hs
+  induction hs with
+  | nil => intro w e2 w' _ h; simp [selectHandler] at h
+  | cons hd tl ih =>
+    intro w e2 w' hc h
+    cases hd with
+    | mk cs pre body =>
+      simp only [confH, Bool.and_eq_true, hcb, Bool.false_or] at hc
+      cases pre with
+      | raises i c =>
+        simp only [selectHandler, Prod.mk.injEq, HSel.raised.injEq] at h
+        rw [← h.1]
+        simpa [HPre.quiet] using hc.1.2
+      | tick i =>
+        simp only [selectHandler] at h
+        split at h
+        · simp at h
+        · exact ih _ e2 w' hc.2 h
+      | plain =>
+        simp only [selectHandler] at h
+        split at h
+        · simp at h
+        · exact ih _ e2 w' hc.2 h
 
 theorem selectHandler_free (sub : Nat → Nat → Bool) (e : Exc) :
     ∀ hs w hb w', freeJumpH hs = false → selectHandler sub e hs w = (.found hb, w') → freeJumpL hb = false := by
@@ -148,6 +194,9 @@ theorem nj_all (sub : Nat → Nat → Bool) : ∀ n, NJ sub n := by
       | raise c cause => simp [Py.exec, NoJumpOut]
       | reraise => cases h <;> simp [Py.exec, NoJumpOut]
       | assert_ i =>
+        simp only [Py.exec]
+        split <;> simp [NoJumpOut]
+      | suspend i =>
         simp only [Py.exec]
         split <;> simp [NoJumpOut]
       | ite i b o =>
@@ -244,29 +293,247 @@ theorem nj_all (sub : Nat → Nat → Bool) : ∀ n, NJ sub n := by
         | raise e => simp [NoJumpOut]
 
 
+/-! ### on the fragment of a configuration with `catchesBase` off no BaseException-only exception ever arises -/
+
+theorem baseOnly_runtimeError : baseOnly runtimeError = false := by decide
+theorem baseOnly_assertionError : baseOnly assertionError = false := by decide
+
+def NBOut (o : Out) : Prop := ∀ e, o = .raise e → baseOnly e.cls = false
+def HNB (h : Option Exc) : Prop := ∀ e, h = some e → baseOnly e.cls = false
+
+theorem finish_nb (p : Out) (r : Out × World) (hp : NBOut p) (hr : NBOut r.1) : NBOut (Py.finish p r).1 := by
+  rcases r with ⟨o, w⟩
+  cases o <;> simp_all [Py.finish, NBOut]
+
+theorem handlingIn_nb (p : Out) (h : Option Exc) (hp : NBOut p) (hh : HNB h) : HNB (Py.handlingIn p h) := by
+  cases p <;> simp_all [Py.handlingIn, NBOut, HNB]
+
+theorem exit1_nb (m : WItem) (r : Out × World) (hm : optQuiet m.exitRaises = true) (hr : NBOut r.1) :
+    NBOut (Py.exit1 m r).1 := by
+  rcases r with ⟨o, w⟩
+  cases hx : m.exitRaises <;> cases hs : m.suppress <;> cases o <;> simp_all [Py.exit1, NBOut, optQuiet]
+
+def NB (cfg : Cfg) (sub : Nat → Nat → Bool) (n : Nat) : Prop :=
+  (∀ h s w, HNB h → confS cfg s = true → NBOut (Py.exec sub n h s w).1) ∧
+  (∀ h ss w, HNB h → confL cfg ss = true → NBOut (Py.block sub n h ss w).1) ∧
+  (∀ h i b o w, HNB h → confL cfg b = true → confL cfg o = true → NBOut (Py.whileLoop sub n h i b o w).1) ∧
+  (∀ h k b o w, HNB h → confL cfg b = true → confL cfg o = true → NBOut (Py.forLoop sub n h k b o w).1)
+
+theorem nb_all (cfg : Cfg) (hcb : cfg.catchesBase = false) (sub : Nat → Nat → Bool) : ∀ n, NB cfg sub n := by
+  intro n
+  induction n with
+  | zero =>
+    refine ⟨?_, ?_, ?_, ?_⟩ <;> intros <;> simp [Py.exec, Py.block, Py.whileLoop, Py.forLoop, NBOut]
+  | succ n ih =>
+    obtain ⟨ihE, ihB, ihW, ihF⟩ := ih
+    refine ⟨?_, ?_, ?_, ?_⟩
+    · intro h s w hh hc
+      cases s with
+      | tick i => simp [Py.exec, NBOut]
+      | brk => simp [Py.exec, NBOut]
+      | cont => simp [Py.exec, NBOut]
+      | ret v => simp [Py.exec, NBOut]
+      | raise c cause =>
+        simp only [confS, hcb, Bool.false_or, Bool.not_eq_true'] at hc
+        intro e he
+        simp only [Py.exec, Out.raise.injEq] at he
+        rw [← he]; exact hc
+      | reraise =>
+        cases h with
+        | none => simp [Py.exec, NBOut, baseOnly_runtimeError]
+        | some e0 =>
+          intro e he
+          simp only [Py.exec, Out.raise.injEq] at he
+          rw [← he]; exact hh e0 rfl
+      | assert_ i =>
+        simp only [Py.exec]
+        split <;> simp [NBOut, baseOnly_assertionError]
+      | suspend i => simp [confS, hcb] at hc
+      | ite i b o =>
+        simp only [confS, Bool.and_eq_true] at hc
+        simp only [Py.exec]
+        split
+        · exact ihB _ _ _ hh hc.1
+        · exact ihB _ _ _ hh hc.2
+      | while_ i b o =>
+        simp only [confS, Bool.and_eq_true] at hc
+        simp only [Py.exec]
+        exact ihW _ _ _ _ _ hh hc.1.1 hc.1.2
+      | for_ i b o =>
+        simp only [confS, Bool.and_eq_true] at hc
+        simp only [Py.exec]
+        exact ihF _ _ _ _ _ hh hc.1.1 hc.1.2
+      | try_ b hs o f =>
+        simp only [confS, Bool.and_eq_true] at hc
+        obtain ⟨⟨⟨hb, hhs⟩, ho⟩, hfin⟩ := hc
+        simp only [Py.exec]
+        have key : ∀ r2 : Out × World, NBOut r2.1 →
+            NBOut (Py.finish r2.1 (Py.block sub n (Py.handlingIn r2.1 h) f r2.2)).1 :=
+          fun r2 h2 => finish_nb _ _ h2 (ihB _ _ _ (handlingIn_nb _ _ h2 hh) hfin)
+        apply key
+        have h1 := ihB h b w hh hb
+        rcases hr1 : Py.block sub n h b w with ⟨o1, w1⟩
+        rw [hr1] at h1
+        cases o1 with
+        | normal => exact ihB _ _ _ hh ho
+        | brk => simp [NBOut]
+        | cont => simp [NBOut]
+        | ret v => simp [NBOut]
+        | raise e =>
+          have he : baseOnly e.cls = false := h1 e rfl
+          simp only
+          rcases hsel : selectHandler sub e hs w1 with ⟨sel, w2⟩
+          cases sel with
+          | notFound => intro e' he'; simp only [Out.raise.injEq] at he'; rw [← he']; exact he
+          | raised e2 =>
+            intro e' he'; simp only [Out.raise.injEq] at he'; rw [← he']
+            exact selectHandler_raised_nb cfg hcb sub e hs w1 e2 w2 hhs hsel
+          | found hbod =>
+            exact ihB _ _ _ (by intro e' he'; simp only [Option.some.injEq] at he'; rw [← he']; exact he)
+              (selectHandler_confL cfg sub e hs w1 hbod w2 hhs hsel)
+      | with_ items b =>
+        simp only [confS, Bool.and_eq_true, hcb, Bool.false_or] at hc
+        obtain ⟨⟨hb, hwo⟩, hq⟩ := hc
+        simp only [Py.exec]
+        cases items with
+        | nil => exact ihB _ _ _ hh hb
+        | cons m ms =>
+          simp only [List.all_cons, Bool.and_eq_true, WItem.quiet] at hq
+          obtain ⟨⟨⟨hqe, hqb⟩, hqx⟩, hqs⟩ := hq
+          simp only
+          cases hme : m.enterRaises with
+          | some c =>
+            intro e' he'; simp only [Out.raise.injEq] at he'; rw [← he']
+            simpa [optQuiet, hme] using hqe
+          | none =>
+            simp only
+            apply exit1_nb _ _ hqx
+            cases hmb : m.bindRaises with
+            | some c =>
+              intro e' he'; simp only [Out.raise.injEq] at he'; rw [← he']
+              simpa [optQuiet, hmb] using hqb
+            | none =>
+              simp only
+              cases ms with
+              | nil => exact ihB _ _ _ hh hb
+              | cons m2 ms2 =>
+                have hwn : cfg.withNested = true := by simpa [withOk] using hwo
+                exact ihE _ _ _ hh (by simpa [confS, hb, withOk, hcb, hwn] using hqs)
+    · intro h ss w hh hc
+      cases ss with
+      | nil => simp [Py.block, NBOut]
+      | cons s ss =>
+        simp only [confL, Bool.and_eq_true] at hc
+        simp only [Py.block]
+        have h1 := ihE h s w hh hc.1
+        rcases hr1 : Py.exec sub n h s w with ⟨o1, w1⟩
+        rw [hr1] at h1
+        cases o1 with
+        | normal => exact ihB _ _ _ hh hc.2
+        | brk => simp [NBOut]
+        | cont => simp [NBOut]
+        | ret v => simp [NBOut]
+        | raise e => exact h1
+    · intro h i b o w hh hb ho
+      simp only [Py.whileLoop]
+      split
+      · have h1 := ihB h b (w.ask i).2 hh hb
+        rcases hr1 : Py.block sub n h b (w.ask i).2 with ⟨o1, w1⟩
+        rw [hr1] at h1
+        cases o1 with
+        | normal => exact ihW _ _ _ _ _ hh hb ho
+        | cont => exact ihW _ _ _ _ _ hh hb ho
+        | brk => simp [NBOut]
+        | ret v => simp [NBOut]
+        | raise e => exact h1
+      · exact ihB _ _ _ hh ho
+    · intro h k b o w hh hb ho
+      cases k with
+      | zero => simp only [Py.forLoop]; exact ihB _ _ _ hh ho
+      | succ k =>
+        simp only [Py.forLoop]
+        have h1 := ihB h b w hh hb
+        rcases hr1 : Py.block sub n h b w with ⟨o1, w1⟩
+        rw [hr1] at h1
+        cases o1 with
+        | normal => exact ihF _ _ _ _ _ hh hb ho
+        | cont => exact ihF _ _ _ _ _ hh hb ho
+        | brk => simp [NBOut]
+        | ret v => simp [NBOut]
+        | raise e => exact h1
+
 /-! ### the simulation: markers (pyscript) vs outcomes (reference), lock-step on fuel -/
 
+/-- the exception being handled is one that `except Exception` can have caught -/
+def HOk (cfg : Cfg) (h : Option Exc) : Prop := cfg.catchesBase = true ∨ HNB h
+
+theorem hok_none (cfg : Cfg) : HOk cfg none := Or.inr (by intro e he; cases he)
+
+theorem seen_of_nb (cfg : Cfg) (r : Res) (hnb : cfg.catchesBase = false → NBOut r.toOut) : Seen cfg r := by
+  intro e he
+  subst he
+  cases hcb : cfg.catchesBase with
+  | true => simp [skipsHandlers, hcb]
+  | false =>
+    have := hnb hcb e rfl
+    simp [skipsHandlers, hcb, this]
+
+theorem seen_of_agree (cfg : Cfg) (r : Res × World) (o : Out × World) (heq : lift r = o)
+    (hnb : cfg.catchesBase = false → NBOut o.1) : Seen cfg r.1 :=
+  seen_of_nb cfg r.1 (fun hcb => by have := hnb hcb; rw [← heq] at this; exact this)
+
+theorem seen_quiet (cfg : Cfg) (c : Nat) (w : World) (hq : (cfg.catchesBase || !baseOnly c) = true) :
+    Seen cfg ((Res.exc { cls := c }, w) : Res × World).1 := by
+  intro e he
+  simp only [Res.exc.injEq] at he
+  subst he
+  cases hcb : cfg.catchesBase <;> simp_all [skipsHandlers]
+
+theorem hok_some (cfg : Cfg) (e : Exc) (hs : skipsHandlers cfg e = false) : HOk cfg (some e) := by
+  cases hcb : cfg.catchesBase with
+  | true => exact Or.inl hcb
+  | false =>
+    refine Or.inr ?_
+    intro e' he'
+    simp only [Option.some.injEq] at he'
+    subst he'
+    simpa [skipsHandlers, hcb] using hs
+
+theorem hok_handling (cfg : Cfg) (p : Out) (h : Option Exc) (hok : HOk cfg h)
+    (hp : cfg.catchesBase = false → NBOut p) : HOk cfg (Py.handlingIn p h) := by
+  cases hcb : cfg.catchesBase with
+  | true => exact Or.inl hcb
+  | false => exact Or.inr (handlingIn_nb _ _ (hp hcb) (hok.resolve_left (by simp [hcb])))
+
+theorem nbout_exec (cfg : Cfg) (sub : Nat → Nat → Bool) (n : Nat) (h : Option Exc) (s : Stmt) (w : World)
+    (hok : HOk cfg h) (hc : confS cfg s = true) (hcb : cfg.catchesBase = false) : NBOut (Py.exec sub n h s w).1 :=
+  (nb_all cfg hcb sub n).1 h s w (hok.resolve_left (by simp [hcb])) hc
+
+theorem nbout_block (cfg : Cfg) (sub : Nat → Nat → Bool) (n : Nat) (h : Option Exc) (ss : List Stmt) (w : World)
+    (hok : HOk cfg h) (hc : confL cfg ss = true) (hcb : cfg.catchesBase = false) : NBOut (Py.block sub n h ss w).1 :=
+  (nb_all cfg hcb sub n).2.1 h ss w (hok.resolve_left (by simp [hcb])) hc
+
 def Agree (cfg : Cfg) (sub : Nat → Nat → Bool) (n : Nat) : Prop :=
-  (∀ h s w, confS cfg s = true → lift (PS.exec cfg sub n h s w) = Py.exec sub n h s w) ∧
-  (∀ h ss w, confL cfg ss = true → lift (PS.stmts cfg sub n h ss w) = Py.block sub n h ss w) ∧
-  (∀ h ss w, confL cfg ss = true → freeJumpL ss = false →
+  (∀ h s w, HOk cfg h → confS cfg s = true → lift (PS.exec cfg sub n h s w) = Py.exec sub n h s w) ∧
+  (∀ h ss w, HOk cfg h → confL cfg ss = true → lift (PS.stmts cfg sub n h ss w) = Py.block sub n h ss w) ∧
+  (∀ h ss w, HOk cfg h → confL cfg ss = true → freeJumpL ss = false →
       lift (PS.elseStmts cfg sub n h ss w) = Py.block sub n h ss w) ∧
-  (∀ h i b o w, confL cfg b = true → confL cfg o = true → (cfg.loopElsePropagates || !freeJumpL o) = true →
+  (∀ h i b o w, HOk cfg h → confL cfg b = true → confL cfg o = true → (cfg.loopElsePropagates || !freeJumpL o) = true →
       lift (PS.whileLoop cfg sub n h i b o w) = Py.whileLoop sub n h i b o w) ∧
-  (∀ h k b o w, confL cfg b = true → confL cfg o = true → (cfg.loopElsePropagates || !freeJumpL o) = true →
+  (∀ h k b o w, HOk cfg h → confL cfg b = true → confL cfg o = true → (cfg.loopElsePropagates || !freeJumpL o) = true →
       lift (PS.forLoop cfg sub n h k b o w) = Py.forLoop sub n h k b o w)
 
 /-- the else clause under either flag value -/
 theorem else_agree (cfg : Cfg) (sub : Nat → Nat → Bool) (n : Nat) (ih : Agree cfg sub n)
-    (h : Option Exc) (o : List Stmt) (w : World) (ho : confL cfg o = true)
+    (h : Option Exc) (o : List Stmt) (w : World) (hok : HOk cfg h) (ho : confL cfg o = true)
     (hf : (cfg.loopElsePropagates || !freeJumpL o) = true) :
     lift (if cfg.loopElsePropagates then PS.stmts cfg sub n h o w else PS.elseStmts cfg sub n h o w)
       = Py.block sub n h o w := by
   cases hp : cfg.loopElsePropagates with
-  | true => simpa using ih.2.1 h o w ho
+  | true => simpa using ih.2.1 h o w hok ho
   | false =>
     simp only [hp, Bool.false_or, Bool.not_eq_true'] at hf
-    simpa using ih.2.2.1 h o w ho hf
+    simpa using ih.2.2.1 h o w hok ho hf
 
 theorem agree_all (cfg : Cfg) (sub : Nat → Nat → Bool) : ∀ n, Agree cfg sub n := by
   intro n
@@ -282,7 +549,7 @@ theorem agree_all (cfg : Cfg) (sub : Nat → Nat → Bool) : ∀ n, Agree cfg su
     have ihF := ih.2.2.2.2
     refine ⟨?_, ?_, ?_, ?_, ?_⟩
     · -- statements
-      intro h s w hc
+      intro h s w hok hc
       cases s with
       | tick i => simp [PS.exec, Py.exec, lift, Res.toOut]
       | brk => simp [PS.exec, Py.exec, lift, Res.toOut, Marker.toOut]
@@ -293,186 +560,266 @@ theorem agree_all (cfg : Cfg) (sub : Nat → Nat → Bool) : ∀ n, Agree cfg su
       | assert_ i =>
         simp only [PS.exec, Py.exec]
         split <;> simp [lift, Res.toOut]
+      | suspend i =>
+        simp only [PS.exec, Py.exec]
+        split <;> simp_all [lift, Res.toOut]
       | ite i b o =>
         simp only [confS, Bool.and_eq_true] at hc
         simp only [PS.exec, Py.exec]
         split
-        · exact ihB _ _ _ hc.1
-        · exact ihB _ _ _ hc.2
+        · exact ihB _ _ _ hok hc.1
+        · exact ihB _ _ _ hok hc.2
       | while_ i b o =>
         simp only [confS, Bool.and_eq_true] at hc
         simp only [PS.exec, Py.exec]
-        exact ihW _ _ _ _ _ hc.1.1 hc.1.2 hc.2
+        exact ihW _ _ _ _ _ hok hc.1.1 hc.1.2 hc.2
       | for_ i b o =>
         simp only [confS, Bool.and_eq_true] at hc
         simp only [PS.exec, Py.exec]
-        exact ihF _ _ _ _ _ hc.1.1 hc.1.2 hc.2
+        exact ihF _ _ _ _ _ hok hc.1.1 hc.1.2 hc.2
       | try_ b hs o f =>
         simp only [confS, Bool.and_eq_true] at hc
         obtain ⟨⟨⟨hb, hh⟩, ho⟩, hfin⟩ := hc
         simp only [PS.exec, Py.exec]
-        have h1 := ihB h b w hb
+        -- the `finally` part, for any agreeing result of the try/except/else part
+        have tail : ∀ (r2 : Res) (w2 : World), (cfg.catchesBase = false → NBOut r2.toOut) →
+            lift (PS.finish r2 (PS.stmts cfg sub n (PS.handlingIn r2 h) f w2)) =
+              Py.finish r2.toOut (Py.block sub n (Py.handlingIn r2.toOut h) f w2) := by
+          intro r2 w2 hnb2
+          rw [handlingIn_agree, ← ihB _ f w2 (hok_handling cfg _ h hok hnb2) hfin]
+          exact finish_agree _ _
+        have h1 := ihB h b w hok hb
+        have hnb1 := nbout_block cfg sub n h b w hok hb
         rcases hr1 : PS.stmts cfg sub n h b w with ⟨r1, w1⟩
         rw [hr1] at h1
         simp only [lift] at h1
-        rw [← h1]
+        rw [← h1] at hnb1 ⊢
         rcases r1 with (_ | m) | e
         · -- else clause
           simp only [Res.toOut]
-          have h2 := ihB h o w1 ho
+          have h2 := ihB h o w1 hok ho
+          have hnb2 := nbout_block cfg sub n h o w1 hok ho
           rcases hr2 : PS.stmts cfg sub n h o w1 with ⟨r2, w2⟩
           rw [hr2] at h2
           simp only [lift] at h2
-          rw [← h2]
-          rw [handlingIn_agree]
-          rw [← ihB _ f w2 hfin]
-          exact finish_agree _ _
+          rw [← h2] at hnb2 ⊢
+          exact tail r2 w2 hnb2
         · -- marker from the try body
           cases m <;>
             (simp only [Res.toOut, Marker.toOut]
-             rw [← ihB _ f w1 hfin]
-             exact finish_agree _ _)
+             exact tail _ w1 (by intro _ e he; cases he))
         · -- exception
-          simp only [Res.toOut]
+          have hsk : skipsHandlers cfg e = false := seen_of_nb cfg (.exc e) hnb1 e rfl
+          simp only [Res.toOut, hsk, Bool.false_eq_true, if_false]
           rcases hsel : selectHandler sub e hs w1 with ⟨sel, w1'⟩
           cases sel with
           | notFound =>
             simp only
-            rw [← ihB _ f w1' hfin]
-            exact finish_agree _ _
+            exact tail (.exc e) w1' hnb1
           | raised e2 =>
             simp only
-            rw [← ihB _ f w1' hfin]
-            exact finish_agree _ _
+            refine tail (.exc e2) w1' (fun hcb e' he' => ?_)
+            simp only [Res.toOut, Out.raise.injEq] at he'
+            rw [← he']
+            exact selectHandler_raised_nb cfg hcb sub e hs w1 e2 w1' hh hsel
           | found hbod =>
             simp only
-            have h2 := ihB (some e) hbod w1' (selectHandler_confL cfg sub e hs w1 hbod w1' hh hsel)
+            have hc2 := selectHandler_confL cfg sub e hs w1 hbod w1' hh hsel
+            have hok2 : HOk cfg (some e) := hok_some cfg e hsk
+            have h2 := ihB (some e) hbod w1' hok2 hc2
+            have hnb2 := nbout_block cfg sub n (some e) hbod w1' hok2 hc2
             rcases hr2 : PS.stmts cfg sub n (some e) hbod w1' with ⟨r2, w2⟩
             rw [hr2] at h2
             simp only [lift] at h2
-            rw [← h2]
-            rw [handlingIn_agree]
-            rw [← ihB _ f w2 hfin]
-            exact finish_agree _ _
+            rw [← h2] at hnb2 ⊢
+            exact tail r2 w2 hnb2
       | with_ items b =>
         simp only [confS, Bool.and_eq_true] at hc
-        obtain ⟨hb, hw⟩ := hc
+        obtain ⟨⟨hb, hw⟩, hq⟩ := hc
         simp only [PS.exec, Py.exec]
         cases hn : cfg.withNested with
         | true =>
           simp only [if_true]
           cases items with
-          | nil => exact ihB _ _ _ hb
+          | nil => exact ihB _ _ _ hok hb
           | cons m ms =>
             simp only
             cases m.enterRaises with
             | some c => simp [lift, Res.toOut]
             | none =>
               simp only
-              cases m.bindRaises with
+              cases hmb : m.bindRaises with
               | some c =>
                 simp only
-                rw [withFinish_single]
+                rw [withFinish_single cfg m _ (seen_quiet cfg c _ (by
+                  cases hcb : cfg.catchesBase <;> simp_all [WItem.quiet, optQuiet]))]
                 simp [lift, Res.toOut]
               | none =>
                 simp only
                 cases ms with
                 | nil =>
                   simp only
-                  rw [withFinish_single, ihB _ _ _ hb]
+                  rw [withFinish_single cfg m _ (seen_of_agree cfg _ _ (ihB h b _ hok hb)
+                    (nbout_block cfg sub n h b _ hok hb)), ihB _ _ _ hok hb]
                 | cons m2 ms2 =>
                   simp only
-                  rw [withFinish_single]
-                  rw [ihE h (.with_ (m2 :: ms2) b) _ (by simp [confS, hb, withOk, hn])]
+                  have hc2 : confS cfg (.with_ (m2 :: ms2) b) = true := by
+                    cases hcb : cfg.catchesBase <;> simp_all [confS, withOk]
+                  rw [withFinish_single cfg m _ (seen_of_agree cfg _ _ (ihE h _ _ hok hc2)
+                    (nbout_exec cfg sub n h _ _ hok hc2)), ihE h _ _ hok hc2]
         | false =>
           simp only [Bool.false_eq_true, if_false]
           simp only [withOk, hn, Bool.false_or, Bool.and_eq_true, beq_iff_eq] at hw
           obtain ⟨hl, hall⟩ := hw
-          match items, hl, hall with
-          | [m], _, hall =>
+          match items, hl, hall, hq with
+          | [m], _, hall, hq =>
             simp only [List.all_cons, List.all_nil, Bool.and_true, Option.isNone_iff_eq_none] at hall
             simp only [PS.initAll, List.foldl_cons, List.foldl_nil, PS.enterAll, hall]
-            cases m.bindRaises with
+            cases hmb : m.bindRaises with
             | some c =>
               simp only
-              rw [withFinish_single]
+              rw [withFinish_single cfg m _ (seen_quiet cfg c _ (by
+                cases hcb : cfg.catchesBase <;> simp_all [WItem.quiet, optQuiet]))]
               simp [lift, Res.toOut]
             | none =>
               simp only
-              rw [withFinish_single, ihB _ _ _ hb]
+              rw [withFinish_single cfg m _ (seen_of_agree cfg _ _ (ihB h b _ hok hb)
+                (nbout_block cfg sub n h b _ hok hb)), ihB _ _ _ hok hb]
     · -- statement lists
-      intro h ss w hc
+      intro h ss w hok hc
       cases ss with
       | nil => simp [PS.stmts, Py.block, lift, Res.toOut]
       | cons s ss =>
         simp only [confL, Bool.and_eq_true] at hc
         simp only [PS.stmts, Py.block]
-        have hs := ihE h s w hc.1
+        have hs := ihE h s w hok hc.1
         simp only [lift] at hs
         rcases hps : PS.exec cfg sub n h s w with ⟨r, w'⟩
         rw [hps] at hs
         rw [← hs]
         rcases r with (_ | m) | e
-        · simpa [Res.toOut] using ihB h ss w' hc.2
+        · simpa [Res.toOut] using ihB h ss w' hok hc.2
         · cases m <;> simp [Res.toOut, Marker.toOut, lift]
         · simp [Res.toOut, lift]
-    · -- else clause as coded today, on blocks without free jumps
-      intro h ss w hc hf
+    · -- else clause as coded before the fix, on blocks without free jumps
+      intro h ss w hok hc hf
       cases ss with
       | nil => simp [PS.elseStmts, Py.block, lift, Res.toOut]
       | cons s ss =>
         simp only [confL, Bool.and_eq_true] at hc
         simp only [freeJumpL, Bool.or_eq_false_iff] at hf
         simp only [PS.elseStmts, Py.block]
-        have hs := ihE h s w hc.1
+        have hs := ihE h s w hok hc.1
         have hnj := (nj_all sub n).1 h s w hf.1
         simp only [lift] at hs
         rcases hps : PS.exec cfg sub n h s w with ⟨r, w'⟩
         rw [hps] at hs
         rw [← hs] at hnj ⊢
         rcases r with (_ | m) | e
-        · simpa [Res.toOut] using ih.2.2.1 h ss w' hc.2 hf.2
+        · simpa [Res.toOut] using ih.2.2.1 h ss w' hok hc.2 hf.2
         · cases m with
           | brk => simp [NoJumpOut, Res.toOut, Marker.toOut] at hnj
           | cont => simp [NoJumpOut, Res.toOut, Marker.toOut] at hnj
           | ret v => simp [Res.toOut, Marker.toOut, lift]
         · simp [Res.toOut, lift]
     · -- while
-      intro h i b o w hb ho hf
+      intro h i b o w hok hb ho hf
       simp only [PS.whileLoop, Py.whileLoop]
       split
-      · have h1 := ihB h b (w.ask i).2 hb
+      · have h1 := ihB h b (w.ask i).2 hok hb
         simp only [lift] at h1
         rcases hps : PS.stmts cfg sub n h b (w.ask i).2 with ⟨r, w'⟩
         rw [hps] at h1
         rw [← h1]
         rcases r with (_ | m) | e
-        · simpa [Res.toOut] using ihW h i b o w' hb ho hf
+        · simpa [Res.toOut] using ihW h i b o w' hok hb ho hf
         · cases m with
           | brk => simp [Res.toOut, Marker.toOut, lift]
-          | cont => simpa [Res.toOut, Marker.toOut] using ihW h i b o w' hb ho hf
+          | cont => simpa [Res.toOut, Marker.toOut] using ihW h i b o w' hok hb ho hf
           | ret v => simp [Res.toOut, Marker.toOut, lift]
         · simp [Res.toOut, lift]
-      · exact else_agree cfg sub n ih h o _ ho hf
+      · exact else_agree cfg sub n ih h o _ hok ho hf
     · -- for
-      intro h k b o w hb ho hf
+      intro h k b o w hok hb ho hf
       cases k with
       | zero =>
         simp only [PS.forLoop, Py.forLoop]
-        exact else_agree cfg sub n ih h o _ ho hf
+        exact else_agree cfg sub n ih h o _ hok ho hf
       | succ k =>
         simp only [PS.forLoop, Py.forLoop]
-        have h1 := ihB h b w hb
+        have h1 := ihB h b w hok hb
         simp only [lift] at h1
         rcases hps : PS.stmts cfg sub n h b w with ⟨r, w'⟩
         rw [hps] at h1
         rw [← h1]
         rcases r with (_ | m) | e
-        · simpa [Res.toOut] using ihF h k b o w' hb ho hf
+        · simpa [Res.toOut] using ihF h k b o w' hok hb ho hf
         · cases m with
           | brk => simp [Res.toOut, Marker.toOut, lift]
-          | cont => simpa [Res.toOut, Marker.toOut] using ihF h k b o w' hb ho hf
+          | cont => simpa [Res.toOut, Marker.toOut] using ihF h k b o w' hok hb ho hf
           | ret v => simp [Res.toOut, Marker.toOut, lift]
         · simp [Res.toOut, lift]
+
+/-! ### return markers: fresh allocation keeps pending values per activation -/
+
+/-- the value activation `a` would be handed now -/
+def MStore.valOf (s : MStore) (a : Nat) : Option Nat :=
+  match s.pending.lookup a with
+  | none => none
+  | some i => (s.cells[i]?).getD none
+
+/-- fresh allocation keeps every activation's pending value equal to the value of its own last `return` -/
+def MInv (s : MStore) (t : RetSpec) : Prop :=
+  s.out = t.out ∧ (∀ a i, s.pending.lookup a = some i → i < s.cells.length) ∧ (∀ a, s.valOf a = t.last.lookup a)
+
+theorem minv_step (s : MStore) (t : RetSpec) (ev : MEv) (h : MInv s t) :
+    MInv (s.step .fresh ev) (t.step ev) := by
+  obtain ⟨ho, hb, hv⟩ := h
+  cases ev with
+  | ret a node v =>
+    refine ⟨ho, ?_, ?_⟩
+    · intro a' i hl
+      simp only [MStore.step, MStore.alloc, List.lookup_cons] at hl
+      simp only [MStore.step, MStore.alloc, List.length_append, List.length_cons, List.length_nil]
+      split at hl
+      · simp only [Option.some.injEq] at hl; omega
+      · have := hb a' i hl; omega
+    · intro a'
+      simp only [MStore.step, MStore.alloc, MStore.valOf, RetSpec.step, List.lookup_cons]
+      by_cases hE : (a' == a) = true
+      · simp [hE]
+      · simp only [hE]
+        have hv' := hv a'
+        simp only [MStore.valOf] at hv'
+        cases hl : s.pending.lookup a' with
+        | none => simpa [hl] using hv'
+        | some i =>
+          have hi := hb a' i hl
+          simp only [hl] at hv' ⊢
+          rw [List.getElem?_append_left hi]
+          exact hv'
+  | take a =>
+    have hva := hv a
+    simp only [MStore.valOf] at hva
+    cases hl : s.pending.lookup a with
+    | none =>
+      simp only [hl] at hva
+      refine ⟨?_, ?_, ?_⟩
+      · simp [MStore.step, RetSpec.step, hl, ho, ← hva]
+      · intro a' i hl'; simpa [MStore.step, hl] using hb a' i (by simpa [MStore.step, hl] using hl')
+      · intro a'; simpa [MStore.step, hl, RetSpec.step, MStore.valOf] using hv a'
+    | some i =>
+      simp only [hl] at hva
+      refine ⟨?_, ?_, ?_⟩
+      · simp [MStore.step, RetSpec.step, hl, ho, ← hva]
+      · intro a' i' hl'; simpa [MStore.step, hl] using hb a' i' (by simpa [MStore.step, hl] using hl')
+      · intro a'; simpa [MStore.step, hl, RetSpec.step, MStore.valOf] using hv a'
+
+theorem minv_run (evs : List MEv) : ∀ (s : MStore) (t : RetSpec), MInv s t →
+    MInv (evs.foldl (MStore.step .fresh) s) (evs.foldl RetSpec.step t) := by
+  induction evs with
+  | nil => intro s t h; exact h
+  | cons ev evs ih => intro s t h; exact ih _ _ (minv_step s t ev h)
+
 
 end PsModel.C02
